@@ -6,6 +6,7 @@ import (
 	"encoding/json"
 	"fmt"
 	"os"
+	"runtime/debug"
 	"strings"
 
 	"pgregory.net/rapid"
@@ -20,23 +21,46 @@ import (
 // (log.Fatal in the merger/checker) leaves a replay artefact.
 type journal struct {
 	path  string
+	f     *os.File
 	steps []*dbgen.Step
 }
 
 func newJournal(name string) *journal {
+	// many goroutines (8 persist workers per opened database) are leaked by
+	// the code under test; fewer GC cycles keep their stack scans affordable
+	debug.SetGCPercent(400)
 	return &journal{path: rt.ReplayOut(name)}
 }
 
-func (j *journal) reset() { j.steps = j.steps[:0] }
+// reset starts the journal of a new case (JSON lines, one step per line;
+// readSteps also accepts a JSON list).
+func (j *journal) reset() {
+	j.steps = j.steps[:0]
+	if j.f != nil {
+		j.f.Close()
+	}
+	j.f, _ = os.Create(j.path)
+}
 
 func (j *journal) add(st *dbgen.Step) {
 	j.steps = append(j.steps, st)
-	if b, err := json.Marshal(j.steps); err == nil {
-		os.WriteFile(j.path, b, 0o644)
+	if j.f == nil && j.path != os.DevNull {
+		j.f, _ = os.Create(j.path)
+	}
+	if j.f != nil {
+		if b, err := json.Marshal(st); err == nil {
+			j.f.Write(append(b, '\n'))
+		}
 	}
 }
 
-func (j *journal) done() { os.Remove(j.path) }
+func (j *journal) done() {
+	if j.f != nil {
+		j.f.Close()
+		j.f = nil
+	}
+	os.Remove(j.path)
+}
 
 // text renders the history for failure messages and samples.
 func (j *journal) text() string {
@@ -111,6 +135,13 @@ func knownStep(rec *ev.Rec, s *dbgen.Session, st *dbgen.Step) bool {
 	if st.Kind == dbgen.KAdmin && dbgen.IntroducesStaleIndexName(w, st.Admin) {
 		if e, ok := kf.Known("C21", "rename-stale-index-fields"); ok {
 			rec.Excluded("rename-stale-index-fields")
+			rec.Known(e.What)
+			return true
+		}
+	}
+	if st.Kind == dbgen.KAdmin && dbgen.RefusedBuildLeaksFlags(w, st.Admin) {
+		if e, ok := kf.Known("C21", "refused-build-leaks-primary"); ok {
+			rec.Excluded("refused-build-leaks-primary")
 			rec.Known(e.What)
 			return true
 		}
@@ -210,8 +241,21 @@ func readSteps(path string) ([]*dbgen.Step, error) {
 		return nil, err
 	}
 	var steps []*dbgen.Step
-	if err := json.Unmarshal(b, &steps); err != nil {
-		return nil, err
+	if len(b) > 0 && b[0] == '[' {
+		if err := json.Unmarshal(b, &steps); err != nil {
+			return nil, err
+		}
+		return steps, nil
+	}
+	for _, line := range strings.Split(string(b), "\n") {
+		if strings.TrimSpace(line) == "" {
+			continue
+		}
+		st := &dbgen.Step{}
+		if err := json.Unmarshal([]byte(line), st); err != nil {
+			return nil, err
+		}
+		steps = append(steps, st)
 	}
 	return steps, nil
 }
@@ -221,4 +265,17 @@ func replayChunk() int {
 	n := 8192
 	fmt.Sscan(os.Getenv("VERIF_REPLAY_CHUNK"), &n)
 	return n
+}
+
+// knownBadTail recognises finding C04/tail-at-chunk-start in the result of
+// a reopen step.
+func knownBadTail(rec *ev.Rec, res dbgen.Result) bool {
+	if res.TailAtChunkStart && strings.Contains(res.Err, "bad state") {
+		if e, ok := kf.Known("C04", "tail-at-chunk-start"); ok {
+			rec.Excluded("tail-at-chunk-start")
+			rec.Known(e.What)
+			return true
+		}
+	}
+	return false
 }
